@@ -25,7 +25,8 @@ func (t *Target) AccessDeniedHTTP(r *http.Request) bool {
 	if err != nil {
 		log.Printf("[ERROR] failed to get host from remote header %s: %s",
 			r.RemoteAddr, err.Error())
-		return false
+		// the peer cannot be identified: do not let it pass the rules
+		return true
 	}
 
 	ip := net.ParseIP(host)
@@ -79,7 +80,8 @@ func (t *Target) AccessDeniedTCP(c net.Conn) bool {
 	addr, ok := c.RemoteAddr().(*net.TCPAddr)
 	if !ok {
 		log.Printf("[ERROR] failed to assert remote connection address for %s", t.Service)
-		return false
+		// the peer cannot be identified: do not let it pass the rules
+		return true
 	}
 	// check remote connection address
 	if t.denyByIP(addr.IP) {
